@@ -51,9 +51,9 @@ PROPS = {
     "C10": dict(jobs=lambda j: j.startswith("update:") or j == "avg" or j.startswith("units:") or (j.startswith("explainable:") and j.endswith((".__eq__", ".to", ".__lt__", ".__gt__"))), obl=lambda o: o["kind"] in ("post", "pre", "libpre", "units", "frame") and "cover" not in o["name"],
                 bounded="c10", level="proof", design="4 C12/C10",
                 technique="every contract is stated on physical (base-unit) values and proved with the unit conversion factor of every input left symbolic (> 0): unit independence by construction; bare-magnitude reads fail the proof unless preceded by .to(<literal unit>); equality / ordering / conversion operators compare and convert physical values (an edit to the same number in another unit is a change)"),
-    "C12": dict(jobs=lambda j: j.startswith("lemma:C12") or (j.startswith("explainable:") and j.endswith(".__eq__")) or upd("update_instances_energy", "update_instances_fabrication_footprint", "update_energy_footprint", "update_devices_",
+    "C12": dict(jobs=lambda j: j.startswith("lemma:C12") or (j.startswith("explainable:") and j.endswith((".__eq__", ".__mul__", ".__rmul__", ".__truediv__", ".__rtruediv__", ".__add__", ".__radd__", ".__sub__", ".__rsub__"))) or upd("update_instances_energy", "update_instances_fabrication_footprint", "update_energy_footprint", "update_devices_",
                          "Network", "update_hour_by_hour", "update_nb_usage_journeys")(j), obl=ALL_OBL, bounded="c12", level="proof", design="4 C12/C10",
-                technique="homogeneity lemmas over the functional specifications the update rules are proved equal to (z3), plus the proofs of those equalities"),
+                technique="homogeneity lemmas over the functional specifications the update rules are proved equal to (z3), plus the proofs of those equalities; the arithmetic operators the rules are built from are proved to compute the product / quotient / sum of physical values AND to record both operands as parents (a driver that is not an ancestor of a footprint cannot propagate to it)"),
     "C18": dict(jobs=lambda j: j.startswith("update:"), obl=kinds("frame", "order"), bounded="c18", level="other", design="4 C18",
                 technique="frame contracts of every update rule (writes exactly its attribute, leaves every model value physically unchanged) and read-set order obligations against calculated_attributes / CANONICAL_COMPUTATION_ORDER read from the real classes; second-pass twin on real systems"),
     "C19": dict(jobs=lambda j: j.startswith("update:"), obl=lambda o: "order-independence" in o["name"] or o["kind"] == "inv" or "loop" in o["name"],
